@@ -1,11 +1,12 @@
 import PyYetiVerif.Lemmas.RainflowImp
 import PyYetiVerif.Lemmas.Rainflow
+import PyYetiVerif.Model.RainflowEntry
 /-! Invariants shared by the refinement proofs `generated program = model` (core Lean only):
 how the work arrays of the code (`pts`, `cycle_index`: a stack growing upwards, top at `j`;
 `rf`, `os`: rows `0 … n` written) represent the model's lists. -/
 set_option linter.unusedSectionVars false
 namespace PyYetiVerif.RainflowGen
-open PyYetiVerif.RainflowImp PyYetiVerif.Rainflow
+open PyYetiVerif.RainflowImp PyYetiVerif.Rainflow PyYetiVerif.RainflowEntry
 
 /-! ### a stack stored in an array: `a[0 … len-1]`, newest element of the list on top -/
 
@@ -89,10 +90,6 @@ end ArrStack
 /-! ### the output tables: rows `0 … rows.length-1` written -/
 
 variable {α : Type} [Ops α]
-
-/-- one row of the code's table: `[range / 2, sum / 2, 1.0 or 0.5]` -/
-def rfRow (r : α × α × Bool) : List α :=
-  [Ops.half r.1, Ops.half r.2.1, if r.2.2 then Ops.c1 else Ops.c05]
 
 /-- `t` is an `nr × nc` table whose first `rows.length` rows are written with `rows` -/
 structure TabOK {β : Type} (nr nc : Nat) (t : Arr2 β) (rows : List (List β)) : Prop where
